@@ -69,3 +69,20 @@ def canary():
 
 
 R.canaries.append(("vcf.py:canary#all-samples-unphased", canary))
+
+
+# ---- PhasedVcfWriter._set_PS (C03: the phase set id written is component + 1; C09: GT carries the haplotype alleles in order, every allele after
+# the first is marked phased)
+R.contract(
+    "PhasedVcfWriter._set_PS",
+    params={"self": REF("PVW"), "call": REF("Call"), "component": INT, "phase": LIST(INT), "haploid_component": MAYBE(LIST(INT))},
+    requires=[("owner", "call.rec is not None and not call.rec.frozen")],
+    ensures=[
+        ("ps-is-component-plus-one", "tag('PS') in call.tag_int and call.tag_int[tag('PS')] == component + 1 and tag('PS') not in call.tag_none"),
+        ("gt-is-the-phase-in-order", "len(call.gt) == len(phase) and forall(i, implies(0 <= i and i < len(phase), call.gt[i] == phase[i])) and not call.gt_none"),
+        ("all-alleles-phased", "forall(i, implies(1 <= i, i in call.ph))"),
+        ("hs-only-when-given", "implies(haploid_component is None or len(haploid_component) == 0, forall(t, (t in call.tag_list) == old(t in call.tag_list)))"),
+    ],
+    modifies=["Call.gt", "Call.gt_none", "Call.ph", "Call.tag_none", "Call.tag_int", "Call.tag_list"],
+    extra={"assume_asserts": [0]},
+    props=["C03", "C09"])
